@@ -12,6 +12,7 @@ import (
 	"github.com/spf13/afero"
 	grpcimport "github.com/yandex/pandora/components/grpc/import"
 	phttpimport "github.com/yandex/pandora/components/phttp/import"
+	"github.com/yandex/pandora/core/config"
 	"github.com/yandex/pandora/core/engine"
 	coreimport "github.com/yandex/pandora/core/import"
 	"github.com/yandex/pandora/lib/monitoring"
@@ -31,8 +32,17 @@ func Fs() afero.Fs {
 		coreimport.Import(memFs)
 		phttpimport.Import(memFs)
 		grpcimport.Import(memFs)
+		warmUpDecoder()
 	})
 	return memFs
+}
+
+// warmUpDecoder makes the first config decode of the process here, on one goroutine, as the CLI
+// does when it reads its config: core/config compiles its hook chain lazily and without a lock
+// on the first decode, so a monitor whose first decodes run in parallel would race there.
+func warmUpDecoder() {
+	var sink struct{}
+	_ = config.Decode(map[string]any{}, &sink)
 }
 
 // OsFsImport is like Fs but imports the components on the real filesystem (for monitors that
@@ -43,6 +53,7 @@ func OsFsImport() afero.Fs {
 		coreimport.Import(memFs)
 		phttpimport.Import(memFs)
 		grpcimport.Import(memFs)
+		warmUpDecoder()
 	})
 	return memFs
 }
